@@ -367,7 +367,8 @@ def c07(ctx):
 
 @check("C15", ["C15_"])
 def c15(ctx):
-    files = xfer_traces(ctx, ["basic", "lossy", "pr", "zwin", "il", "reorder"], 160, 4000)
+    files = directed_traces(ctx, "reconfig", 8, {"VF_FULL": "0"})
+    files += xfer_traces(ctx, ["basic", "lossy", "pr", "zwin", "il", "reorder"], 160, 4000)
     ctx.validate(files)
 
 
@@ -494,6 +495,14 @@ def c08(ctx):
     ctx.exhaustive = not ctx.quick
     ctx.notes.append("shutdown: who calls (A, B, both) x queued messages x every <=1 (quick: + sampled pairs; thorough: all pairs) loss/duplication "
                      "decision over (kind, sender, ordinal) of DATA/SACK/SHUTDOWN/SHUTDOWN-ACK/SHUTDOWN-COMPLETE")
+    ctx.validate(files)
+
+
+@check("C14", ["C14_"])
+def c14(ctx):
+    files = directed_traces(ctx, "reconfig", 12 if ctx.quick else 16, {"VF_FULL": "0" if ctx.quick else "1"})
+    ctx.notes.append("reconfig: 1-3 streams closing at once x 0/1/3 queued messages x two close/reopen cycles x every single (quick: + sampled pairs; "
+                     "thorough: all pairs) loss/duplication decision over (kind, sender, ordinal<=3) of DATA/SACK/RECONFIG")
     ctx.validate(files)
 
 
